@@ -798,3 +798,43 @@ func vsQueueLen() {
 	vAssert(got == q, "Q.heap-manager-queue-has-the-configured-length")
 	e.vFinish("Q")
 }
+
+// ---- S14: getters and mutators from a second goroutine that is not ordered with the bar's completion and
+// shutdown (C10: free of data races, including getters called while a bar is shutting down or after it)
+func vsS14() {
+	mode := vModeParam()
+	e := vNewContainer(mode, -1)
+	m0 := vNewMark(0)
+	b, _ := e.p.Add(2, m0, BarFillerTrim())
+	sig := make(chan struct{})
+	done := make(chan struct{})
+	var id int
+	var cur int64
+	go func() {
+		<-sig
+		id = b.ID()
+		cur = b.Current()
+		_ = b.Completed()
+		_ = b.Aborted()
+		_ = b.IsRunning()
+		b.SetRefill(1)
+		b.IncrBy(1)
+		close(done)
+	}()
+	if vParam("completeFirst") != 0 {
+		b.IncrBy(2) // completes: the bar stops on its own from here on
+		sig <- struct{}{}
+	} else {
+		sig <- struct{}{}
+		b.IncrBy(2)
+	}
+	<-done
+	vAssert(id == 0, "S14.id")
+	vAssert(cur == 0 || cur == 2, "S14.getter-sees-a-state-on-some-sequential-order")
+	if mode == vManual {
+		e.refresh <- nil
+		e.refresh <- nil
+	}
+	e.vFinish("S14", b)
+	vAssert(b.ID() == 0 && b.Current() == 2 && b.Completed(), "S14.final-state")
+}
